@@ -117,6 +117,7 @@ def run(tier):
         for rr in framework.pmap(corpus_run.tv_insn, more, chunksize=4):
             for r in rr:
                 r = dict(r)
+                r["key"] = f"{r['key']} #hyb={r.get('hyb')} @{r.get('fmt')}"  # a variant run is its own input
                 extra_runs += 1
                 if r["verdict"] in ("equiv", "noped-ok"):
                     rep.count_query(r["verdict"])
